@@ -552,4 +552,112 @@ def no_memo(repo: Repo) -> RuleRun:
 no_memo.rule_id = "C14.NO-MEMO"
 
 
-RULES = [edge_set, side_table, uniform, face_symmetry, no_stale_cache, trig_domain, shape_only, stretch_monotone, scale_free_guards, angle_arguments, no_memo]
+def row_norms(repo: Repo) -> RuleRun:
+    """'unchanged by rigid motions': lengths and dot products of the kernels are taken per VECTOR - along the coordinate axis
+    (axis=1 of an N x 3 array). A norm / sum along axis 0 mixes the x (y, z) components of different edges: the numbers happen to
+    be right for an axis-aligned box and change as soon as the cell is rotated."""
+    r = RuleRun(PROP, "C14.ROW-NORMS", floor=3, what="every norm / sum-of-products over a list of vectors in the quality kernels runs along the coordinate axis (axis=1), never across the vectors (axis=0)")
+    mod = repo.module("optimize.cell")
+    n = 0
+    for fn in sorted(repo.all_functions(), key=lambda f_: f_.qualname):
+        if fn.module is not mod:
+            continue
+        k = 0
+        for c in ast.walk(fn.node):
+            if not isinstance(c, ast.Call):
+                continue
+            nm = (attr_chain(c.func) or "").split(".")[-1]
+            if nm not in ("norm", "sum"):
+                continue
+            ax = next((kw.value for kw in c.keywords if kw.arg == "axis"), None)
+            if ax is None:
+                continue
+            if nm == "sum" and not (c.args and any(isinstance(x, ast.BinOp) and isinstance(x.op, (ast.Mult, ast.Pow)) for x in ast.walk(c.args[0]))):
+                continue
+            n += 1
+            val = ax.value if isinstance(ax, ast.Constant) else (-ax.operand.value if isinstance(ax, ast.UnaryOp) and isinstance(ax.operand, ast.Constant) else None)
+            r.check(
+                val in (1, -1),
+                fn,
+                f"'{ast.unparse(c)[:60]}': along the coordinates",
+                f"{fn.qualname}: '{ast.unparse(c)[:80]}' reduces a list of vectors along axis {val}: it returns one number per COORDINATE (the x, y, z extents of all vectors together) instead of one per vector - "
+                "right for an axis-aligned box only, different after any rotation of the cell",
+                c,
+                key=f"axis#{k}",
+            )
+            k += 1
+    r.require(n >= 3, f"only {n} per-vector reductions found in optimize.cell")
+    return r
+
+
+row_norms.rule_id = "C14.ROW-NORMS"
+
+
+def centre_symmetric(repo: Repo) -> RuleRun:
+    """'... and by renumbering the corners': the cell centre the side vectors are measured from is a symmetric function of ALL corners
+    (their mean). A centre taken from two of them (the middle of a space diagonal, a face diagonal) is exact for parallelepipeds
+    and depends on the numbering for every other cell. Exact rational evaluation of `center` of every cell class on a cell that is
+    no parallelepiped, for all rotational renumberings of its corners."""
+    from fractions import Fraction
+
+    from .. import exact, hexa
+
+    r = RuleRun(PROP, "C14.CENTRE-SYMMETRIC", floor=2, what="the centre of a cell is the same point for every rotational renumbering of its corners (exact evaluation on a non-parallelepiped)")
+    base = repo.cls("optimize.cell.CellBase")
+    hexp = [exact.vec(0, 0, 0), exact.vec(2, Fraction(1, 5), 0), exact.vec(Fraction(9, 4), Fraction(7, 4), Fraction(-1, 5)), exact.vec(Fraction(-1, 3), 2, 0), exact.vec(Fraction(1, 10), 0, 1), exact.vec(Fraction(3, 2), 0, Fraction(3, 2)), exact.vec(2, 2, Fraction(5, 4)), exact.vec(0, Fraction(3, 2), 1)]
+    quadp = hexp[:4]
+
+    def hook(ev, call, name):
+        nm = (name or "").split(".")[-1]
+        if nm in ("average", "mean") and call.args:
+            v = ev.eval(call.args[0])
+            if isinstance(v, list) and v and all(isinstance(x, exact.Vec) for x in v):
+                tot = v[0]
+                for x in v[1:]:
+                    tot = tot + x
+                return tot.scale(exact.c(Fraction(1, len(v))))
+        if nm == "take" and len(call.args) >= 2:
+            v, idx = ev.eval(call.args[0]), ev.eval(call.args[1])
+            if isinstance(v, list) and isinstance(idx, (list, tuple)):
+                return [v[i] for i in idx]
+        if nm in ("array", "asarray") and call.args:
+            return ev.eval(call.args[0])
+        return NO_MATCH
+
+    for cls in sorted((c for c in repo.subclasses(base) if c is not base), key=lambda c: c.qualname):
+        fn = repo.find_method(cls, "center")
+        r.require(fn is not None, f"{cls.name}.center vanished")
+        pts = hexp if "Hex" in cls.name else quadp
+        if "Hex" in cls.name:
+            perms = hexa.rotations_24()
+        else:
+            perms = [tuple((i + k) % 4 for i in range(4)) for k in range(4)] + [tuple((k - i) % 4 for i in range(4)) for k in range(4)]
+        results = []
+        for perm in perms:
+            cell = Obj("cell", cls=cls)
+            cell.set("grid_points", [pts[i] for i in perm])
+            cell.set("indexes", list(range(len(pts))))
+            cell.set("points", [pts[i] for i in perm])
+            ev = exact.evaluator(repo, fn.module, extra=hook)
+            try:
+                results.append(ev.call_funcinfo(fn, [cell]))
+            except (Raised, NotEvaluable) as err:
+                raise AnalysisError(f"{cls.name}.center not evaluable over exact rational points: {err}") from err
+        r.require(all(isinstance(x, exact.Vec) for x in results), f"{cls.name}.center does not return a point on the exact model")
+        different = [k for k, x in enumerate(results) if not exact.same(x, results[0])]
+        r.check(
+            not different,
+            fn,
+            f"{cls.name}: one centre for all {len(perms)} renumberings",
+            f"{cls.name}.center gives another point for {len(different)} of the {len(perms)} rotational renumberings of a cell that is no parallelepiped (e.g. numbering {list(perms[different[0]]) if different else ''}): "
+            "the quality of the same block depends on which corner its numbering starts at",
+            fn.node,
+            key=f"centre:{cls.name}",
+        )
+    return r
+
+
+centre_symmetric.rule_id = "C14.CENTRE-SYMMETRIC"
+
+
+RULES = [edge_set, side_table, uniform, face_symmetry, no_stale_cache, trig_domain, shape_only, stretch_monotone, scale_free_guards, angle_arguments, no_memo, row_norms, centre_symmetric]
